@@ -346,9 +346,9 @@ theorem stability (v : Ver) :
 
 /-! ## Part 4: a table's files all carry the table's storage version -/
 
-/-- every data file of the manifest has the manifest's storage version -/
+/-- every data file of the manifest has the version the manifest's storage version label stands for -/
 def FilesMatch (m : Manifest) : Prop :=
-  ∃ dsv, Ver.fromStr m.storageVersion = some dsv ∧ ∀ f ∈ allFiles m.fragments, f.version = some dsv
+  ∃ label, Ver.fromStr m.storageVersion = some label ∧ ∀ f ∈ allFiles m.fragments, f.version = some label.resolve
 
 /-- **files_match_storage_version.** If `check_storage_version` returns `Ok`, then in the manifest it
 leaves behind every data file carries exactly the storage version of the table; the check changes
@@ -359,14 +359,14 @@ theorem files_match_storage_version (m m' : Manifest) (h : checkStorageVersion m
   unfold checkStorageVersion at h
   split at h
   · cases h
-  · rename_i dsv hdsv
+  · rename_i label hlabel
     split at h
     · rename_i hleg
       split at h
       · cases h
       · rename_i hinf
         cases h
-        refine ⟨⟨dsv, hdsv, ?_⟩, rfl, rfl, rfl, rfl, rfl⟩
+        refine ⟨⟨label, hlabel, ?_⟩, rfl, rfl, rfl, rfl, rfl⟩
         intro f hf
         rw [tryInfer_none _ hinf] at hf
         cases hf
@@ -380,27 +380,28 @@ theorem files_match_storage_version (m m' : Manifest) (h : checkStorageVersion m
             exact (mm_concrete _ _ _ this).1
         split at h
         · cases h
-          refine ⟨⟨actual, ?_, hall⟩, rfl, rfl, rfl, rfl, rfl⟩
-          have := (version_string_roundtrip actual).2
-          rw [hconc] at this
-          exact this
+          refine ⟨⟨actual, ?_, ?_⟩, rfl, rfl, rfl, rfl, rfl⟩
+          · have := (version_string_roundtrip actual).2
+            rw [hconc] at this
+            exact this
+          · rw [hconc]; exact hall
         · rename_i hnot
           cases h
-          refine ⟨⟨dsv, hdsv, ?_⟩, rfl, rfl, rfl, rfl, rfl⟩
-          have : actual = dsv := by
-            subst hleg
+          refine ⟨⟨label, hlabel, ?_⟩, rfl, rfl, rfl, rfl, rfl⟩
+          have : actual = label.resolve := by
+            rw [hleg] at hnot ⊢
             have : actual.rank = 0 := by
               have e : Ver.legacy.rank = 0 := rfl
               rw [e] at hnot
               omega
             cases actual <;> simp_all [Ver.rank]
-          subst this
+          rw [← this]
           exact hall
     · split at h
       · cases h
       · rename_i hinf
         cases h
-        refine ⟨⟨dsv, hdsv, ?_⟩, rfl, rfl, rfl, rfl, rfl⟩
+        refine ⟨⟨label, hlabel, ?_⟩, rfl, rfl, rfl, rfl, rfl⟩
         intro f hf
         rw [tryInfer_none _ hinf] at hf
         cases hf
@@ -410,9 +411,9 @@ theorem files_match_storage_version (m m' : Manifest) (h : checkStorageVersion m
         · cases h
         · rename_i heq
           cases h
-          have : actual = dsv := Decidable.of_not_not heq
-          subst this
-          exact ⟨⟨actual, hdsv, hall⟩, rfl, rfl, rfl, rfl, rfl⟩
+          have : actual = label.resolve := Decidable.of_not_not heq
+          rw [this] at hall
+          exact ⟨⟨label, hlabel, hall⟩, rfl, rfl, rfl, rfl, rfl⟩
 
 /-- a manifest with the given fragments and storage version label, nothing else -/
 def mkManifest (frags : List Frag) (ver : String) : Manifest :=
@@ -420,29 +421,28 @@ def mkManifest (frags : List Frag) (ver : String) : Manifest :=
     storageVersion := ver.toList }
 
 /-- non-vacuity: a 2.1 table with 2.1 files passes; a legacy-labelled table whose files are all 2.0 is
-relabelled 2.0 (the 0.16 repair); mixtures and mismatches are refused -/
+relabelled 2.0 (the 0.16 repair); mixtures and mismatches are refused; an alias label is accepted
+with files of the version it stands for and keeps its spelling -/
 example :
     (checkStorageVersion (mkManifest [⟨[⟨2, 1⟩, ⟨2, 1⟩], false, false⟩] "2.1")).toOption =
       some (mkManifest [⟨[⟨2, 1⟩, ⟨2, 1⟩], false, false⟩] "2.1") ∧
     (checkStorageVersion (mkManifest [⟨[⟨2, 0⟩], false, false⟩, ⟨[⟨0, 3⟩], false, false⟩] "legacy")).toOption =
       some (mkManifest [⟨[⟨2, 0⟩], false, false⟩, ⟨[⟨0, 3⟩], false, false⟩] "2.0") ∧
     (checkStorageVersion (mkManifest [⟨[⟨2, 0⟩], false, false⟩, ⟨[⟨2, 1⟩], false, false⟩] "2.0")).toOption = none ∧
-    (checkStorageVersion (mkManifest [⟨[⟨2, 0⟩], false, false⟩] "2.1")).toOption = none := by
+    (checkStorageVersion (mkManifest [⟨[⟨2, 0⟩], false, false⟩] "2.1")).toOption = none ∧
+    (checkStorageVersion (mkManifest [⟨[⟨2, 0⟩], false, false⟩] "Stable")).toOption =
+      some (mkManifest [⟨[⟨2, 0⟩], false, false⟩] "Stable") ∧
+    (checkStorageVersion (mkManifest [⟨[⟨2, 0⟩], false, false⟩] "next")).toOption = none := by
   decide
 
-/-- a consistent table: the label parses and every file carries the version the label resolves to -/
+/-- a consistent table: the label parses and every file carries the version the label stands for -/
 def Consistent (m : Manifest) : Prop :=
   ∃ w, Ver.fromStr m.storageVersion = some w ∧ ∀ f ∈ allFiles m.fragments, f.version = some w.resolve
 
-/-- the converse one would like: the check never refuses (or changes) a consistent table -/
-def C37_check_accepts_consistent_full : Prop :=
-  ∀ m, Consistent m → checkStorageVersion m = .ok m
-
-/-- it holds whenever the label is not an alias (`stable` / `next`) or there are no files -/
-theorem check_accepts_consistent_partial (m : Manifest) (hc : Consistent m)
-    (hx : (Ver.fromStr m.storageVersion ≠ some .stable ∧ Ver.fromStr m.storageVersion ≠ some .next) ∨
-          allFiles m.fragments = []) :
-    checkStorageVersion m = .ok m := by
+/-- **check_accepts_consistent.** The converse: the check never refuses (or changes) a consistent
+table — including tables whose label is an alias.  (Before /repo commit ab32f28 this failed for the
+labels `stable` and `next`; the witness is kept in corpus/C37.) -/
+theorem check_accepts_consistent (m : Manifest) (hc : Consistent m) : checkStorageVersion m = .ok m := by
   obtain ⟨w, hw, hall⟩ := hc
   unfold checkStorageVersion
   rw [hw]
@@ -455,14 +455,7 @@ theorem check_accepts_consistent_partial (m : Manifest) (hc : Consistent m)
     split <;> rfl
   | cons f0 rest =>
     have hne : allFiles m.fragments ≠ [] := by rw [hfl]; simp
-    have hres : w.resolve = w := by
-      rcases hx with ⟨h1, h2⟩ | h0
-      · rw [hw] at h1 h2
-        have := (resolve_concrete w).2.2.2 (fun e => h1 (by rw [e])) (fun e => h2 (by rw [e]))
-        exact this
-      · exact absurd h0 hne
-    rw [hres] at hall
-    rw [tryInfer_uniform m.fragments w hne hall]
+    rw [tryInfer_uniform m.fragments w.resolve hne hall]
     split
     · simp only
       split
@@ -470,14 +463,12 @@ theorem check_accepts_consistent_partial (m : Manifest) (hc : Consistent m)
       · rfl
     · simp
 
-/-- … and fails for an alias label: a table labelled `stable` whose files are all 2.0 is refused
-(the comparison in `check_storage_version` does not `resolve()` the label) -/
-theorem check_accepts_consistent_counterexample : ¬ C37_check_accepts_consistent_full := by
-  intro h
-  have := h (mkManifest [⟨[⟨2, 0⟩], false, false⟩] "stable") ⟨.stable, by decide, by decide⟩
-  have e : checkStorageVersion (mkManifest [⟨[⟨2, 0⟩], false, false⟩] "stable") = .error .internal := by rfl
-  rw [e] at this
-  cases this
+/-- `FilesMatch` and `Consistent` are the same predicate: the check accepts exactly … -/
+theorem check_ok_iff_consistent_unchanged (m : Manifest) :
+    checkStorageVersion m = .ok m ↔ Consistent m := by
+  constructor
+  · intro h; exact (files_match_storage_version m m h).1
+  · exact check_accepts_consistent m
 
 /-! ## Part 5: histories -/
 
